@@ -5,6 +5,7 @@ import asyncio
 import itertools
 import json
 import struct
+import types
 from unittest import mock
 
 from cryptography.exceptions import InvalidTag
@@ -33,7 +34,14 @@ RULE = ("per transport, EXHAUSTIVE event sequences to depth 5 (quick) / 6 (thoro
         "replays, future frames - also the same one repeatedly -, bit-flipped and junk blocks, half frames, frames of the previous session, cancels, time-outs and reconnects, and KEEPS delivering after a failed block for as long as "
         "the library keeps the session; exhaustive fault sequences to depth 3 (quick) / 4 + random histories; accepted blocks and the messages reaching listeners/callers must be a prefix of the accessory's own log); "
         "BLE responses of 1..3 fragments with every GATT read answered by the radio (stream ble-reads: next / replay / future / corrupted / cancelled, continuing after a failure); "
-        "CoAP events also through EventResource.render_put up to the owner's event_received (stream coap-event-resource). non-trivial = distinct event sequence")
+        "CoAP events also through EventResource.render_put up to the owner's event_received (stream coap-event-resource); "
+        "CoAP whole sessions through the real CoAPPairing / CoAPHomeKitConnection (stream coap-session: real pair-verify against the reference accessory, database fetch, only aiocoap's Context replaced; "
+        "histories over {get / put / subscribe / unsubscribe / list accessories / populate / list_pairings / remove_pairing / identify, events of one or two records, replays of every recorded event and response datagram of this and "
+        "the previous session, corrupted / 4.04 / lost responses, lost requests, time-outs, cancellations, zeroconf re-discovery at the same / a new address / a new port / gone / new configuration number, reconnect_soon, connect, "
+        "do_pair_verify on the live connection, close}; every session-level operation and every pair of them in the middle of a session, then replays + random histories; observed on the wire by trial decryption under the accessory's "
+        "keys, at the cipher, and at the listeners: per key no nonce twice, responses / events authenticated at most once and in the accessory's order - a new pair-verify legitimately restarts); "
+        "IP pairing-level operations in the middle of a session (ip-session tokens s u L g n Z z: subscribe / unsubscribe / database / read / ensure_connection / zeroconf updates, each and each pair followed by a replay of every earlier frame); "
+        "BLE multi-session histories with the link lost (disconnected callback) or the pairing closed between exchanges. non-trivial = distinct event sequence")
 TRUSTED = ["cryptography ChaCha20Poly1305 as the accessory's cipher", "asyncio closes the transport when data_received raises (mimicked by the in-memory transport)"]
 ASSUMPTIONS = ["distinct pair-verify / pair-resume runs give distinct keys (HKDF of a fresh shared secret): on BLE this is observed, not assumed - the multi-session stream numbers key sets by their key bytes; "
                "on IP and CoAP every connection runs a full pair-verify (C01 checks its keys against the accessory's)",
@@ -145,14 +153,14 @@ def run_ip(loop, evs):
 
 
 # ---------------------------------------------------------------- IP, whole sessions end to end
-def _http_msg(kind, mid, pad):
+def _http_msg(kind, mid, pad, extra=None):
     """one HTTP message of the accessory: an EVENT or the response to a request; `mid` is its serial number in the
     accessory's log, `pad` bytes of an extra header make it span several encrypted blocks"""
     if kind == "e":
         body = json.dumps({"characteristics": [{"aid": 1, "iid": 9, "value": mid}]}).encode()
         first = b"EVENT/1.0 200 OK"
     else:
-        body = json.dumps({"m": mid, "characteristics": []}).encode()
+        body = json.dumps(dict({"m": mid, "characteristics": []}, **(extra or {}))).encode()
         first = b"HTTP/1.1 200 OK"
     return (first + b"\r\nContent-Type: application/hap+json" + (b"\r\nX-Pad: " + b"p" * pad if pad else b"")
             + b"\r\nContent-Length: %d\r\n\r\n" % len(body) + body)
@@ -167,14 +175,18 @@ def run_ip_session(loop, evs, seed=0):
     session (k=0 the genuine next frame, k<0 a replay, k>0 a future frame) ; D deliver every frame from `next` on in one
     segment ; m<k> a copy of frame next+k with one bit flipped ; j a block nobody sealed ; h<k> only the head of frame
     next+k ; r the rest of that frame ; o<i> frame i of the PREVIOUS session ; c the caller of the request in flight is
-    cancelled ; T 31 s pass ; R the network lets the controller reconnect (new session, new keys).
+    cancelled ; T 31 s pass ; R the network lets the controller reconnect (new session, new keys) ;
+    pairing-level operations in the middle of a session: s / u IpPairing.subscribe / unsubscribe ; L
+    list_accessories_and_characteristics ; g get_characteristics ; Z zeroconf reports the accessory again (same address:
+    _async_description_update -> reconnect_soon on the live connection) ; z reports it at a new address ; n
+    connection.ensure_connection() on the live connection.
     `next` is harness bookkeeping only (how many frames were delivered in order so far) - the oracle does not use it.
     Everything keeps being delivered after a failure: whether anything is still accepted is up to the library.
     Returns the record the oracle works on."""
     import random as _r
     rnd = _r.Random(seed)
     net = simnet.Net(loop)
-    rec = {"sessions": [], "aead": [], "nonces": [], "http": [], "abandoned": set(), "stats": {}, "crash": None}
+    rec = {"sessions": [], "aead": [], "nonces": [], "http": [], "abandoned": set(), "opaque": set(), "stats": {}, "crash": None}
     by_ct = {}     # block+tag as sealed by the accessory -> (session number, frame number)
     keyof = {}     # a2c key bytes -> session number
     state = {"next": 0, "partial": None}
@@ -219,12 +231,12 @@ def run_ip_session(loop, evs, seed=0):
             secure = [s for s in acc.order if s.secure]
             return sess_of(secure[-1]) if secure else None
 
-        def seal(s, kind, rid=None, pad=0):
+        def seal(s, kind, rid=None, pad=0, extra=None):
             x = sess_of(s)
             mid = mid_counter[0]
             mid_counter[0] += 1
             x["msgs"].append({"mid": mid, "kind": kind, "rid": rid})
-            data = acc.frame(s, _http_msg(kind, mid, pad))
+            data = acc.frame(s, _http_msg(kind, mid, pad, extra))
             while data:
                 n = struct.unpack("<H", data[:2])[0]
                 fr, data = data[:2 + n + 16], data[2 + n + 16:]
@@ -232,8 +244,16 @@ def run_ip_session(loop, evs, seed=0):
                 x["frames"].append(fr)
 
         def responder(s, method, target, body):
-            rid = int(target.rsplit("/", 1)[1])
-            seal(s, "r", rid, rnd.choice([1100, 2300]) if rid in big else 0)
+            tail = target.rsplit("/", 1)[1]
+            if target.startswith("/r/") and tail.isdigit():
+                rid = int(tail)
+                seal(s, "r", rid, rnd.choice([1100, 2300]) if rid in big else 0)
+            else:
+                # a request of one of the pairing's own operations (subscribe, database, ..): its caller does not hand the
+                # response on, so it is checked at the block level only
+                rid = -1 - len(rec["opaque"])
+                rec["opaque"].add(rid)
+                seal(s, "r", rid, 0, {"accessories": []})
             return None  # sealed, not delivered: the network decides
         acc.responder = responder
         orig_on_write = net.handler
@@ -274,7 +294,8 @@ def run_ip_session(loop, evs, seed=0):
             await settle(loop)
             net.connect_outcomes = ["refused"] * 100000
             cur()
-            nreq = 0
+            nreq = nops = 0
+            zc = {"n": 1}
             for ev in evs:
                 k, arg = ev[0], (int(ev[1:]) if len(ev) > 1 else None)
                 x = cur()
@@ -361,6 +382,32 @@ def run_ip_session(loop, evs, seed=0):
                     if not conn.is_connected:
                         net.connect_outcomes = ["ok"] + ["refused"] * 100000
                         conn.reconnect_soon()
+                elif k in "suLgn":
+                    nops += 1
+                    fn = {"s": lambda: p.subscribe([(1, 9)]), "u": lambda: p.unsubscribe([(1, 9)]), "L": p.list_accessories_and_characteristics,
+                          "g": lambda: p.get_characteristics([(1, 9)]), "n": conn.ensure_connection}[k]
+
+                    async def op(fn=fn):
+                        try:
+                            await fn()
+                        except asyncio.CancelledError:
+                            raise
+                        except BaseException as e:  # noqa: BLE001
+                            nm = "disconnected" if isinstance(e, AccessoryDisconnectedError) else type(e).__name__
+                            rec["stats"]["operation-failed:" + nm] = rec["stats"].get("operation-failed:" + nm, 0) + 1
+                    tasks[-nops] = asyncio.ensure_future(op())
+                elif k in "Zz":
+                    from aiohomekit.model import Categories
+                    from aiohomekit.model.feature_flags import FeatureFlags
+                    from aiohomekit.model.status_flags import StatusFlags
+                    from aiohomekit.zeroconf import HomeKitService
+                    if k == "z":
+                        zc["n"] += 1
+                    addr = "10.0.0.%d" % zc["n"]
+                    rec["stats"]["zeroconf-update"] = rec["stats"].get("zeroconf-update", 0) + 1
+                    p._async_description_update(HomeKitService(
+                        name="acc", id=p.id, model="m", feature_flags=FeatureFlags(0), status_flags=StatusFlags(0), config_num=0, state_num=zc["n"],
+                        category=Categories(5), protocol_version="1.1", type="_hap._tcp.local.", address=addr, addresses=[addr], port=80))
                 else:
                     raise ValueError(ev)
                 await settle(loop)
@@ -412,7 +459,7 @@ def oracle_ip_session(rec):
         dup = next(x for x in rec["nonces"] if rec["nonces"].count(x) > 1)
         out.append(("ip-session/nonce-reuse", f"the controller sealed two blocks with nonce counter {struct.unpack('<LQ', dup[1])[1]} under one key; counters in order: {[struct.unpack('<LQ', n)[1] for k, n in rec['nonces'] if k == dup[0]]}"))
     for x in rec["sessions"]:
-        want = [m["mid"] for m in x["msgs"] if not (m["kind"] == "r" and m["rid"] in rec["abandoned"])]
+        want = [m["mid"] for m in x["msgs"] if not (m["kind"] == "r" and (m["rid"] in rec["abandoned"] or m["rid"] in rec.get("opaque", ())))]
         got = [mid for n, mid in rec["http"] if n == x["n"]]
         ev_got = [mid for mid in got if any(m["mid"] == mid and m["kind"] == "e" for m in x["msgs"])]
         if len(set(map(repr, got))) != len(got) or set(map(repr, got)) != set(map(repr, want[:len(got)])) or ev_got != sorted(ev_got):
@@ -448,6 +495,36 @@ def gen_ip_session(rng):
         if t in ("d1", "d2", "m0", "m1", "j") and rng.random() < 0.6:
             # the shapes a lost / corrupted frame takes on the wire: the same future frame again, or the frames after it
             evs.extend(rng.choice([[t], ["d1"], ["d1", "d1"], ["d2", "d2", "d2"], ["d1", "d2"], ["D"], ["d0"], [t, "d0", "d1"]]))
+    return evs
+
+
+IP_SESSION_OPS = ["Z", "z", "n", "s", "u", "L", "g"]
+
+
+def ip_session_op_histories():
+    """every pairing-level operation (and every pair) in the middle of an IP session that has exchanged events and
+    requests, followed by one probe: a replay of each earlier frame, or more genuine traffic and then a replay"""
+    pre = ["s", "d0", "e", "d0", "q", "d0"]
+    out = []
+    for d in (1, 2):
+        for ops in itertools.product(IP_SESSION_OPS, repeat=d):
+            mid = sum(([o] + (["d0", "d0"] if o in "Lg" else ["d0"] if o in "su" else []) for o in ops), [])
+            probes = [["d-1"], ["d-2"], ["d-3"], ["d-4"], ["e", "d0", "q", "d0", "d-1"]] if d == 1 else [["d-%d" % (3 + len(mid) - d)], ["q", "d0", "e", "d0", "d-2"]]
+            out.extend(pre + mid + pr for pr in probes)
+    return out
+
+
+def gen_ip_session_ops(rng):
+    """random IP histories with pairing-level operations between the frames"""
+    weighted = ["e"] * 4 + ["q"] * 2 + ["d0"] * 12 + ["D"] * 2 + IP_SESSION_OPS * 2 + ["Z", "z", "d-1", "d-2", "d-3", "d1", "m0", "R", "T", "c"]
+    evs = ["s", "d0"] if rng.random() < 0.5 else []
+    for _ in range(rng.randrange(5, 26)):
+        t = rng.choice(weighted)
+        evs.append(t)
+        if t in "suLgq" and rng.random() < 0.8:
+            evs.append(rng.choice(["d0", "d0", "D"]))
+        elif t in "Zzn" and rng.random() < 0.6:
+            evs.extend(rng.choice([["d-1"], ["d-2"], ["d-3"], ["e", "d0"], ["q", "d0"], ["q", "d0", "d-1"], ["e", "d0", "d-2"]]))
     return evs
 
 
@@ -817,6 +894,16 @@ def run_ble_sessions(loop, evs, seed=0):
                     continue
                 ep = install_spies()
                 continue
+            if ev[0] in ("X", "C"):
+                # the radio reports the link lost (bleak's disconnected callback) / the owner closes the pairing: the
+                # session is over; whatever the next pair-verify installs, no (key, nonce) pair may come back
+                i += 1
+                acc["ended"] = acc.get("ended", 0) + 1
+                if ev[0] == "X":
+                    p._async_disconnected(client)
+                else:
+                    await p.close()
+                continue
             if ev[0] != "s":
                 i += 1
                 continue
@@ -1034,6 +1121,526 @@ def run_coap_event_resource(loop, cts):
     return obs
 
 
+# ---------------------------------------------------------------- CoAP, whole sessions through the real CoAPPairing
+CS_CHARS = (10, 11, 12)   # three int32 characteristics (read / write / events)
+CS_PAIRINGS = 20          # the pairings characteristic (service 0x55, type 0x50)
+CS_EV_BASE = 100000       # an event carries CS_EV_BASE + its serial number in the accessory's log as value
+
+
+def _t8(tag, val):
+    val = bytes(val)
+    if not val:
+        return bytes([tag, 0])
+    return b"".join(bytes([tag, len(val[o:o + 255])]) + val[o:o + 255] for o in range(0, len(val), 255))
+
+
+def _cs_database():
+    """the attribute database of the accessory as the TLV8 body of a HAP-over-CoAP database read (written out here, not
+    produced by the library)"""
+    def char(typ, iid, props, gatt):
+        return _t8(0x13, _t8(0x04, bytes([typ])) + _t8(0x05, struct.pack("<H", iid)) + _t8(0x0A, struct.pack("<H", props))
+                   + _t8(0x0C, struct.pack("<BbHBH", gatt, 0, 0x2700, 1, 0)))
+
+    def svc(typ, iid, chars):
+        return _t8(0x15, _t8(0x07, struct.pack("<H", iid)) + _t8(0x06, bytes([typ])) + _t8(0x14, b"\x00\x00".join(chars)))
+    light = svc(0x43, 1, [char(0xCE, i, 0x10 | 0x20 | 0x80, 0x10) for i in CS_CHARS])
+    pairings = svc(0x55, 2, [char(0x50, CS_PAIRINGS, 0x10 | 0x20, 0x1B)])
+    return _t8(0x18, _t8(0x19, _t8(0x1A, struct.pack("<H", 1)) + _t8(0x16, b"\x00\x00".join([light, pairings]))))
+
+
+CS_DATABASE = _cs_database()
+
+
+def run_coap_session(loop, evs, seed=0):
+    """A real CoAPPairing / CoAPHomeKitConnection / EncryptionContext / EventResource: real pair-verify against the
+    reference accessory (refacc), real database fetch, every request through the pairing's public entry points.  Only
+    aiocoap's Context (the UDP socket) is replaced: a POST goes to the in-memory accessory, which keeps STRICT counters
+    per session, seals a response and logs it; the NETWORK decides what comes back.  Tokens:
+      callers      g<i> get_characteristics of one characteristic ; G of all three ; p<i> put_characteristics ; s<i> / S
+                   subscribe ; u<i> unsubscribe ; L list_accessories_and_characteristics ; P async_populate_accessories_state
+                   (forced) ; l list_pairings ; v remove_pairing (of another controller) ; i identify
+      accessory    e / E emits an event of one / two records and the network delivers it ; w emits one the network withholds
+      network      r<k> delivers (again) the k-th most recent event datagram of the current session ; a<k> event number k
+                   of the current session ; o<k> event number k of the PREVIOUS session ; m the most recent event with one
+                   bit flipped ; x a datagram nobody sealed ;
+                   the NEXT request is answered with: R<k> a replay of the k-th most recent response datagram ; A<k>
+                   response number k of the session ; B<k> response number k of the previous session ; X the genuine
+                   response with one bit flipped ; N 4.04 without payload ; O nothing (the response is lost) ; Q nothing,
+                   and the request never reaches the accessory
+      time         T 17 s pass (request time-outs fire) ; c the oldest caller still waiting is cancelled
+      session      D0 zeroconf reports the accessory again at the same endpoint ; D1 at a new address ; D2 at a new port ;
+                   D3 reports it gone ; D4 reports a higher configuration number ; Z connection.reconnect_soon() ;
+                   V connection.connect() ; W connection.do_pair_verify() on the live connection ; K pairing.close()
+    The record: 'log' = in order, every datagram the controller put on the wire (session and nonce found by trial
+    decryption under the keys the ACCESSORY derived), every AEAD operation of the controller's CoAP code (key bytes,
+    nonce, ciphertext, authenticated or not) and every delivery by the network; 'heard' = what reached the listeners;
+    'sessions' = the accessory's own log (keys, responses and events it sealed, in its order)."""
+    import random as _r
+    from collections import Counter
+    from aiohomekit.controller.coap.pairing import CoAPPairing
+    from aiohomekit.model import Categories
+    from aiohomekit.model.feature_flags import FeatureFlags
+    from aiohomekit.model.status_flags import StatusFlags
+    from aiohomekit.zeroconf import HomeKitService
+    rnd = _r.Random(seed)
+
+    def rb(n):
+        return bytes(rnd.randrange(256) for _ in range(n))
+    rec = {"sessions": [], "log": [], "heard": [], "stats": Counter(), "crash": None}
+    log, stats = rec["log"], rec["stats"]
+    ident = refacc.Identity(rb)
+    values = {i: 0 for i in CS_CHARS}
+    acc = {"verify": None, "cur": None, "serial": 0}
+    net = {"mod": None, "contexts": [], "delivery": 0}
+
+    class SpyAead:
+        """stands where the CoAP code constructs its ChaCha20Poly1305 objects: same cipher, every use recorded"""
+
+        def __init__(self, key):
+            self._k = bytes(key)
+            self._c = ChaCha20Poly1305(self._k)
+
+        def encrypt(self, nonce, data, aad):
+            log.append(("seal", self._k, struct.unpack("=4xQ", nonce)[0]))
+            return self._c.encrypt(nonce, data, aad)
+
+        def decrypt(self, nonce, data, aad):
+            try:
+                pt = self._c.decrypt(nonce, data, aad)
+            except InvalidTag:
+                log.append(("try", self._k, struct.unpack("=4xQ", nonce)[0], bytes(data)))
+                raise
+            log.append(("open", self._k, struct.unpack("=4xQ", nonce)[0], bytes(data)))
+            return pt
+
+    # ---- the accessory
+    def pair_verify(ctx, payload):
+        d = refacc.untlv(payload)
+        if d.get(6) == b"\x01":
+            va = refacc.VerifyAccessory(ident, rb(32))
+            acc["verify"] = va
+            return refacc.tlv(va.m2(d[3]))
+        va, acc["verify"] = acc["verify"], None
+        if va is None or not va.check_m3(list(d.items())):
+            return refacc.tlv([(6, b"\x04"), (7, b"\x02")])
+        c2a, a2c, evt = va.keys()
+        s = {"n": len(rec["sessions"]), "c2a": c2a, "a2c": a2c, "evt": evt, "rx": 0, "responses": [], "events": [], "serials": [], "ctx": ctx}
+        rec["sessions"].append(s)
+        acc["cur"] = s
+        return refacc.tlv([(6, b"\x04")])
+
+    def identify_datagram(payload):
+        """which session key and nonce was this datagram sealed with?  (trial decryption, the accessory's keys)"""
+        s = acc["cur"]
+        order = ([(s, s["rx"])] if s else []) + [(x, c) for x in reversed(rec["sessions"]) for c in range(x["rx"] + 12)]
+        for x, c in order:
+            try:
+                return x, c, ChaCha20Poly1305(x["c2a"]).decrypt(n_coap(c), payload, b"")
+            except InvalidTag:
+                continue
+        return None, None, None
+
+    def secure(payload):
+        """-> (code, payload) ; strict counters: a request that is not sealed with the next nonce is refused"""
+        s = acc["cur"]
+        x, c, plain = identify_datagram(payload)
+        log.append(("wire", x["n"] if x else None, c))
+        if x is None or x is not s or c != s["rx"]:
+            stats["accessory refused a request (not its next nonce)"] += 1
+            return coapc.Code.NOT_FOUND, b""
+        s["rx"] += 1
+        out, off = b"", 0
+        while off + 7 <= len(plain):
+            _control, opcode, tid, iid, ln = struct.unpack("<BBBHH", plain[off:off + 7])
+            body = plain[off + 7:off + 7 + ln]
+            off += 7 + ln
+            st, rbody = 0, b""
+            if opcode == 0x09:
+                rbody = CS_DATABASE
+            elif opcode == 0x03 and iid in values:
+                rbody = _t8(0x01, struct.pack("<l", values[iid]))
+            elif opcode == 0x03 and iid == CS_PAIRINGS:
+                rbody = _t8(0x01, refacc.tlv([(6, b"\x02"), (1, ident.ios_id.encode()), (3, ident.ios_ltpk), (11, b"\x01")]))
+            elif opcode == 0x02 and iid in values:
+                try:
+                    values[iid] = struct.unpack("<l", refacc.untlv(body)[1])[0]
+                except Exception:  # noqa: BLE001
+                    st = 6
+            elif opcode == 0x02 and iid == CS_PAIRINGS:
+                pass
+            elif opcode in (0x0B, 0x0C) and iid in values:
+                pass
+            else:
+                st = 4
+            out += struct.pack("<BBBH", 0x02, tid, st, len(rbody)) + rbody
+        enc = ChaCha20Poly1305(s["a2c"]).encrypt(n_coap(len(s["responses"])), out, b"")
+        s["responses"].append(enc)
+        return coapc.Code.CHANGED, enc
+
+    def emit(records):
+        s = acc["cur"]
+        if s is None:
+            return None
+        serial = acc["serial"]
+        acc["serial"] += 1
+        body = _t8(0x01, struct.pack("<l", CS_EV_BASE + serial))
+        pl = b"".join(struct.pack("<BHH", 0, CS_CHARS[(serial + q) % 3], len(body)) + body for q in range(records))
+        enc = ChaCha20Poly1305(s["evt"]).encrypt(n_coap(len(s["events"])), pl, b"")
+        s["events"].append(enc)
+        s["serials"].append(serial)
+        return enc
+
+    # ---- the network
+    class FakeCtx:
+        def __init__(self, site):
+            self.site = site
+            self.closed = False
+            net["contexts"].append(self)
+
+        def request(self, msg):
+            fut = loop.create_future()
+            reply = None
+            path = "/".join(msg.opt.uri_path)
+            if self.closed:
+                stats["request on a context that was shut down"] += 1
+            elif path == "2":
+                reply = (coapc.Code.CHANGED, pair_verify(self, bytes(msg.payload)))
+            elif path == "0":
+                reply = (coapc.Code.CHANGED, b"")
+            elif path == "":
+                mod, net["mod"] = net["mod"], None
+                if mod == "Q":
+                    x, c, _ = identify_datagram(bytes(msg.payload))
+                    log.append(("wire", x["n"] if x else None, c))
+                else:
+                    reply = secure(bytes(msg.payload))
+                    s = acc["cur"]
+                    prev = rec["sessions"][s["n"] - 1] if s and s["n"] >= 1 else None
+                    if mod is None:
+                        pass
+                    elif mod == "O":
+                        reply = None
+                    elif mod == "N":
+                        reply = (coapc.Code.NOT_FOUND, b"")
+                    elif mod == "X":
+                        b = bytearray(reply[1] or bytes(20))
+                        b[rnd.randrange(len(b))] ^= 1 << rnd.randrange(8)
+                        reply = (reply[0], bytes(b))
+                    else:
+                        k = int(mod[1:])
+                        src = (prev["responses"] if prev else []) if mod[0] == "B" else (s["responses"] if s else [])
+                        # the genuine response to THIS request (if any) is the most recent one: `R0` is a replay of the one before it
+                        i = k if mod[0] in "AB" else len(src) - 1 - (reply[0] == coapc.Code.CHANGED) - k
+                        if 0 <= i < len(src):
+                            reply = (coapc.Code.CHANGED, src[i])
+                            stats["response replaced by an earlier one"] += 1
+                if reply is not None:
+                    log.append(("deliver", "response"))
+            if reply is not None:
+                fut.set_result(coapc.Message(code=reply[0], payload=reply[1]))
+            return types.SimpleNamespace(response=fut)
+
+        async def shutdown(self):
+            self.closed = True
+
+    class FakeContext:
+        @staticmethod
+        async def create_server_context(site, bind=None):
+            return FakeCtx(site)
+
+        @staticmethod
+        async def create_client_context():
+            return FakeCtx(None)
+
+    async def deliver_event(datagram):
+        """the datagram arrives as a PUT at the controller's open CoAP endpoint (if there is one)"""
+        live = [c for c in net["contexts"] if c.site is not None and not c.closed]
+        res = live[-1].site._resources.get(()) if live else None
+        if datagram is None or res is None:
+            stats["event datagram with nowhere to go"] += 1
+            return
+        net["delivery"] += 1
+        log.append(("deliver", "event"))
+        try:
+            out = await res.render_put(coapc.Message(code=coapc.Code.PUT, payload=datagram))
+            stats["event answered " + str(out.code)] += 1
+        except Exception as e:  # noqa: BLE001
+            stats["render_put raised " + type(e).__name__] += 1
+
+    async def main():
+        ctrl = mock.MagicMock()
+        ctrl._char_cache = CharacteristicCacheMemory()
+        pd = ident.pairing_data(hosts=("fd00::1",), port=5683, connection="CoAP")
+        with mock.patch.object(coapc, "Context", FakeContext), mock.patch.object(coapc, "ChaCha20Poly1305", SpyAead):
+            p = CoAPPairing(ctrl, pd)
+
+            def listener(ev):
+                for val in ev.values():
+                    v = val.get("value") if isinstance(val, dict) else None
+                    if isinstance(v, int) and not isinstance(v, bool) and v >= CS_EV_BASE:
+                        rec["heard"].append((net["delivery"], v - CS_EV_BASE))
+            p.dispatcher_connect(listener)
+            # set-up on a quiet network: connect (pair-verify, database) and the pairing's accessory model
+            await p.list_accessories_and_characteristics()
+            tasks = []
+            desc = {"addr": "fd00::1", "port": 5683, "cn": 1, "n": 1}
+            nput = [0]
+
+            def start(name, fn):
+                async def caller():
+                    try:
+                        await fn()
+                        stats["op ok"] += 1
+                    except asyncio.CancelledError:
+                        stats["op cancelled"] += 1
+                        raise
+                    except BaseException as e:  # noqa: BLE001
+                        nm = "disconnected" if isinstance(e, AccessoryDisconnectedError) else type(e).__name__
+                        stats["op failed: " + nm] += 1
+                tasks.append(asyncio.ensure_future(caller()))
+
+            for ev in evs:
+                k, arg = ev[0], (int(ev[1:]) if len(ev) > 1 else None)
+                log.append(("token", ev))
+                s = acc["cur"]
+                if k == "g":
+                    start(ev, lambda i=CS_CHARS[arg % 3]: p.get_characteristics([(1, i)]))
+                elif k == "G":
+                    start(ev, lambda: p.get_characteristics([(1, i) for i in CS_CHARS]))
+                elif k == "p":
+                    nput[0] += 1
+                    start(ev, lambda i=CS_CHARS[arg % 3], v=nput[0]: p.put_characteristics([(1, i, v)]))
+                elif k == "s":
+                    start(ev, lambda i=CS_CHARS[arg % 3]: p.subscribe([(1, i)]))
+                elif k == "S":
+                    start(ev, lambda: p.subscribe([(1, i) for i in CS_CHARS]))
+                elif k == "u":
+                    start(ev, lambda i=CS_CHARS[arg % 3]: p.unsubscribe([(1, i)]))
+                elif k == "L":
+                    start(ev, p.list_accessories_and_characteristics)
+                elif k == "P":
+                    start(ev, lambda: p.async_populate_accessories_state(force_update=True))
+                elif k == "l":
+                    start(ev, p.list_pairings)
+                elif k == "i":
+                    start(ev, p.identify)
+                elif k == "v":
+                    start(ev, lambda: p.remove_pairing("another-controller"))
+                elif k in "eE":
+                    await deliver_event(emit(2 if k == "E" else 1))
+                elif k == "w":
+                    emit(1)
+                elif k in "ra":
+                    src = s["events"] if s else []
+                    i = arg if k == "a" else len(src) - 1 - arg
+                    await deliver_event(src[i] if 0 <= i < len(src) else None)
+                elif k == "o":
+                    src = rec["sessions"][s["n"] - 1]["events"] if s and s["n"] >= 1 else []
+                    await deliver_event(src[arg] if arg < len(src) else None)
+                elif k == "m":
+                    b = bytearray(s["events"][-1]) if s and s["events"] else bytearray(20)
+                    b[rnd.randrange(len(b))] ^= 1 << rnd.randrange(8)
+                    await deliver_event(bytes(b))
+                elif k == "x":
+                    await deliver_event(rb(rnd.choice([16, 20, 40])))
+                elif k in "RABXNOQ":
+                    net["mod"] = ev
+                elif k == "T":
+                    await asyncio.sleep(17)
+                elif k == "c":
+                    live = [t for t in tasks if not t.done()]
+                    if live:
+                        live[0].cancel()
+                elif k == "D":
+                    if arg == 1:
+                        desc["n"] += 1
+                        desc["addr"] = "fd00::%x" % desc["n"]
+                    elif arg == 2:
+                        desc["port"] += 1
+                    elif arg == 4:
+                        desc["cn"] += 1
+                    d = None if arg == 3 else HomeKitService(
+                        name="acc", id=p.id, model="m", feature_flags=FeatureFlags(0), status_flags=StatusFlags(0), config_num=desc["cn"], state_num=1,
+                        category=Categories(5), protocol_version="1.1", type="_hap._udp.local.", address=desc["addr"], addresses=[desc["addr"]], port=desc["port"])
+                    p._async_description_update(d)
+                elif k == "Z":
+                    start(ev, p.connection.reconnect_soon)
+                elif k == "V":
+                    start(ev, lambda: p.connection.connect(pd))
+                elif k == "W":
+                    start(ev, lambda: p.connection.do_pair_verify(pd))
+                elif k == "K":
+                    start(ev, p.close)
+                else:
+                    raise ValueError(ev)
+                await settle(loop)
+            for t in tasks:
+                t.cancel()
+            await asyncio.gather(*tasks, return_exceptions=True)
+            await settle(loop)
+    try:
+        loop.run_until_complete(main())
+    except Exception as e:  # noqa: BLE001
+        rec["crash"] = f"{type(e).__name__}: {str(e)[:160]}"
+    return rec
+
+
+def oracle_coap_session(rec):
+    """the property on the accessory's own log.  Per session key: (1) no nonce on two datagrams the controller put on the
+    wire / sealed; (2) the response datagrams that authenticated are responses the accessory sealed under that key, each
+    at most once, in increasing order; (3) the same for event datagrams; (4) the events that reached the listeners are
+    events of the accessory, each datagram at most once, in the accessory's order.
+    The two findings on record are told apart by their MECHANISM, visible at the cipher: an acceptance that needed the
+    resynchronisation search (the same datagram failed to authenticate under another counter just before), a zeroing (the
+    search ended with a try at counter 0), and their consequences (after a searched acceptance of number j the controller
+    goes on with j+1, j+2, ..).  Anything else - a counter that moves without a search - is reported under coap-session/*."""
+    out = []
+    if rec["crash"]:
+        out.append(("coap-session/unexpected-exception", f"the library raised while a session was set up on a quiet network or closed: {rec['crash']}"))
+    sess = rec["sessions"]
+    c2a = {x["c2a"]: x["n"] for x in sess}
+    a2c = {x["a2c"]: x["n"] for x in sess}
+    evt = {x["evt"]: x["n"] for x in sess}
+    resp_of = {ct: (x["n"], i) for x in sess for i, ct in enumerate(x["responses"])}
+    ev_of = {ct: (x["n"], i) for x in sess for i, ct in enumerate(x["events"])}
+    wire_seen, seal_seen = {}, {}
+    zeroed = {}      # session -> log positions where the search reached its last resort (counters zeroed)
+    searched = {}    # session -> a searched acceptance happened
+    hi, last, ehi = {}, {}, {}
+    rtrace, etrace = {}, {}
+    tries = []       # failed attempts since the last delivery
+    done = set()
+    for pos, e in enumerate(rec["log"]):
+        if e[0] == "deliver":
+            tries = []
+        elif e[0] in ("wire", "seal"):
+            n = e[1] if e[0] == "wire" else c2a.get(e[1])
+            if n is None:
+                continue  # not under a key the accessory agreed to: the keys themselves are C01's subject
+            seen = wire_seen if e[0] == "wire" else seal_seen
+            known = (n, e[2]) in seen and any(seen[(n, e[2])] < z <= pos for z in zeroed.get(n, []))
+            sig = "coap/reset-reuses-send-nonce" if known else "coap-session/nonce-reuse"
+            if (n, e[2]) in seen and sig not in done:
+                done.add(sig)
+                nonces = [x[2] for x in rec["log"][:pos + 1] if x[0] == e[0] and (x[1] if e[0] == "wire" else c2a.get(x[1])) == n]
+                out.append((sig,
+                            f"coap session {n}: the controller {'put two datagrams on the wire' if e[0] == 'wire' else 'sealed two messages'} with nonce {e[2]} under one key; nonces of that key in order: {nonces}"))
+            seen[(n, e[2])] = pos
+        elif e[0] == "try":
+            n = a2c.get(e[1])
+            if n is not None and e[2] == 0 and tries:
+                zeroed.setdefault(n, []).append(pos)
+            tries.append(e)
+        elif e[0] == "open":
+            key, ct = e[1], e[3]
+            if key in a2c:
+                n = a2c[key]
+                src = resp_of.get(ct)
+                heur = bool(tries)
+                zero_now = heur and e[2] == 0
+                if zero_now:
+                    zeroed.setdefault(n, []).append(pos)
+                tr = rtrace.setdefault(n, [])
+                tr.append("?" if src is None else ("r%d" % src[1] if src[0] == n else "s%d.r%d" % src))
+                if src is None or src[0] != n:
+                    if "runsealed" not in done:
+                        done.add("runsealed")
+                        out.append(("coap-session/accepts-unsealed-response", f"coap session {n}: a response datagram the accessory never sealed under this key authenticated; accepted so far {tr}"))
+                    continue
+                j = src[1]
+                if heur:
+                    sig = "coap/reset-accepts-replay" if zero_now else "coap/rewind-accepts-replay"
+                elif searched.get(n) and j == last.get(n, -1) + 1:
+                    # accepted at the first try, where the earlier search had left the counter
+                    sig = "coap/reset-accepts-replay" if zeroed.get(n) else "coap/rewind-accepts-replay"
+                else:
+                    sig = "coap-session/response-accepted-twice-or-out-of-order"
+                if j <= hi.get(n, -1) and sig not in done:
+                    done.add(sig)
+                    out.append((sig, f"coap session {n}: the accessory sealed responses 0..{len(sess[n]['responses']) - 1}; the controller accepted {tr} - response {j} was accepted "
+                                     f"after response {hi[n]}{' (after searching for its counter)' if heur else ' at the first try'}"))
+                if heur:
+                    searched[n] = True
+                hi[n] = max(hi.get(n, -1), j)
+                last[n] = j
+            elif key in evt:
+                n = evt[key]
+                src = ev_of.get(ct)
+                tr = etrace.setdefault(n, [])
+                tr.append("?" if src is None else ("e%d" % src[1] if src[0] == n else "s%d.e%d" % src))
+                if src is None or src[0] != n:
+                    if "eunsealed" not in done:
+                        done.add("eunsealed")
+                        out.append(("coap-session/accepts-unsealed-event", f"coap session {n}: an event datagram the accessory never sealed under this key authenticated; accepted so far {tr}"))
+                    continue
+                if src[1] <= ehi.get(n, -1) and "event" not in done:
+                    done.add("event")
+                    out.append(("coap-session/event-accepted-twice-or-out-of-order",
+                                f"coap session {n}: the accessory sealed events 0..{len(sess[n]['events']) - 1}; the controller accepted {tr} - event {src[1]} was accepted after event {ehi[n]}"))
+                ehi[n] = max(ehi.get(n, -1), src[1])
+            tries = []
+    # what reached the listeners: one datagram = one message, whatever the number of records in it
+    serial_of = {sr: (x["n"], i) for x in sess for i, sr in enumerate(x["serials"])}
+    msgs = []
+    for dno, sr in rec["heard"]:
+        if not msgs or msgs[-1] != (dno, sr):
+            msgs.append((dno, sr))
+    lhi = {}
+    for dno, sr in msgs:
+        src = serial_of.get(sr)
+        if src is None:
+            out.append(("coap-session/listener-heard-unsent-event", f"coap: the listeners received an event value {CS_EV_BASE + sr} the accessory never sent"))
+            break
+        if src[1] <= lhi.get(src[0], -1):
+            out.append(("coap-session/listener-event-twice-or-out-of-order",
+                        f"coap session {src[0]}: the accessory sent events {sess[src[0]]['serials']} (serial numbers); the listeners received {[s for _, s in msgs]} - "
+                        f"event {sr} reached them after event {sess[src[0]]['serials'][lhi[src[0]]]}"))
+            break
+        lhi[src[0]] = src[1]
+    return out
+
+
+def account_coap_session(ctx, rec):
+    d = ctx.dist
+    d["coap-session:sessions (pair-verify completed at the accessory)"] += len(rec["sessions"])
+    d["coap-session:histories with more than one session"] += len(rec["sessions"]) > 1
+    d["coap-session:responses sealed by the accessory"] += sum(len(x["responses"]) for x in rec["sessions"])
+    d["coap-session:events sealed by the accessory"] += sum(len(x["events"]) for x in rec["sessions"])
+    d["coap-session:datagrams on the wire"] += sum(1 for e in rec["log"] if e[0] == "wire")
+    d["coap-session:datagrams authenticated by the controller"] += sum(1 for e in rec["log"] if e[0] == "open")
+    d["coap-session:failed authentications"] += sum(1 for e in rec["log"] if e[0] == "try")
+    d["coap-session:events that reached listeners"] += len(rec["heard"])
+    for k, v in rec["stats"].items():
+        d["coap-session:" + k] += v
+
+
+CS_SESSION_OPS = ["D0", "D1", "D2", "D3", "D4", "Z", "V", "W", "K", "s1", "S", "u0", "u1", "g1", "G", "p1", "L", "P", "l", "v", "i", "T"]
+CS_PAIR_OPS = ["D0", "D1", "D3", "D4", "Z", "V", "W", "K", "s1", "u0", "g1", "p1", "L", "l", "T"]  # quick tier: pairs over these
+CS_PROBES = ["a0", "a1", "r0", "e", "g0", "a0", "o0", "e", "s2", "a0", "a1", "o1", "e", "g2"]
+CS_RESPONSE_PROBES = ["A0", "g1", "e", "g0", "A1", "g2"]  # on the unchanged library these meet the resynchronisation heuristics (findings on record)
+
+
+def gen_coap_session(rng):
+    """a random history: genuine traffic, session-level operations in between, the network's faults, replays of
+    everything recorded so far; delivery goes on after a fault"""
+    weighted = (["e"] * 6 + ["E", "w"] + ["g0", "g1", "g2", "G", "p0", "p1", "s0", "s1", "s2", "S", "u0", "u1", "L", "P", "l", "v", "i"] * 2
+                + ["r0", "r1", "r2", "a0", "a0", "a1", "a2", "o0", "o1", "m", "x"] * 2
+                + ["D0", "D0", "D1", "D1", "D2", "D3", "D4", "Z", "Z", "V", "W", "K"] * 2
+                + ["R0", "R1", "R3", "A0", "A1", "B0", "X", "N", "O", "Q", "T", "T", "c"])
+    evs = [rng.choice(["s0", "e", "g0", "e", "p1", "S"]) for _ in range(rng.randrange(2, 6))]
+    for _ in range(rng.randrange(4, 26)):
+        t = rng.choice(weighted)
+        evs.append(t)
+        if t[0] in "RABXNOQ":
+            evs.append(rng.choice(["g0", "g1", "p2", "s1", "u0", "L", "l", "G"]))
+        elif t[0] in "DZVWK" and rng.random() < 0.7:
+            # what an observer of the session so far can do next: play the recorded datagrams again, from the first one on
+            evs.extend(rng.choice([["a0"], ["a0", "a1"], ["g0"], ["a0", "g0"], ["e"], ["g1", "a0", "e"], ["o0", "a0"], ["A0", "g0"], ["s1", "a0"]]))
+        elif t[0] in "su" and rng.random() < 0.5:
+            evs.extend(rng.choice([["a0"], ["a0", "a1", "e"], ["r0"], ["r1", "e"]]))
+    return evs
+
+
 def tok(ev):
     return ev[0] + (str(ev[1]) if len(ev) > 1 else "")
 
@@ -1112,12 +1719,17 @@ def run(ctx: Ctx, driver: Driver):
     sseqs = [pre + list(c) for d in range(1, ctx.budget(3, 4) + 1) for c in itertools.product(["d0", "d1", "d2", "d-1", "m0", "j", "D", "h0", "r"], repeat=d)]
     for _ in range(ctx.budget(400, 8000)):
         sseqs.append(gen_ip_session(rng))
+    # pairing-level operations in the middle of a session (zeroconf updates, ensure_connection, subscribe / unsubscribe, database, reads)
+    sseqs += ip_session_op_histories()
+    for _ in range(ctx.budget(120, 3000)):
+        sseqs.append(gen_ip_session_ops(rng))
     for k, evs in enumerate(sseqs):
         case = {"stream": "ip-session", "events": evs, "seed": ctx.seed * 100003 + k}
         rec = run_ip_session(loop, evs, seed=case["seed"])
         ctx.evaluations += 1
         ctx.nontrivial.add(("ip-session", tuple(evs)))
         account_ip_session(ctx, rec)
+        ctx.dist["ip-session:histories with pairing-level operations"] += any(t[0] in "suLgnZz" for t in evs)
         for sig, text in oracle_ip_session(rec):
             ctx.violation(sig, text, case)
         if k == len(sseqs) - 1:
@@ -1177,6 +1789,25 @@ def run(ctx: Ctx, driver: Driver):
         cases.append(case)
         outs.append(" ".join(obs) or "-")
         lines.append("ctr.sess " + " ".join(t for t in (sess_tok(e) for e in evs) if t))
+    # the same histories with the link lost / the pairing closed between exchanges (oracle only: the counter model has no such event)
+    nended = 0
+    for k in range(ctx.budget(60, 1200)):
+        evs = gen_sessions(rng, long_run=k % 5 == 0)
+        for _ in range(rng.randrange(1, 4)):
+            at = rng.choice([j for j in range(1, len(evs) + 1) if j == len(evs) or evs[j][0] in ("s", "Kr", "Kf", "Kp")])
+            evs.insert(at, (rng.choice(["X", "C"]),))
+            if rng.random() < 0.5:
+                evs[at + 1:at + 1] = [("s", 1), ("g", 0)]  # an exchange attempted with no session: nothing may be sent
+        sd = ctx.seed * 100003 + 50000 + k
+        obs = run_ble_sessions(loop, evs, seed=sd)
+        nres += run_ble_sessions.acc["resumed"]
+        nended += run_ble_sessions.acc.get("ended", 0)
+        ctx.evaluations += 1
+        case = {"stream": "ble-sessions", "events": [tok(e) for e in evs], "seed": sd}
+        ctx.nontrivial.add(("ble-sessions", tuple(case["events"])))
+        for sig, text in analyse_sessions(obs):
+            ctx.violation(sig, text, case)
+    ctx.dist["ble-sessions:link lost / pairing closed between exchanges"] = nended
     ctx.dist["ble-sessions:resumed"] = nres
     if nres == 0:
         ctx.violation("ble/resume-never-happened", "no session of the BLE multi-session stream was resumed: the stream does not exercise pair-resume", cases[0])
@@ -1227,6 +1858,27 @@ def run(ctx: Ctx, driver: Driver):
         for sig, text in analyse(ctx, "coap-event-resource", evs, robs, rcase):
             ctx.violation(sig, text, rcase)
     compare_with_model(ctx, "coap-event", cases, outs, lines, driver)
+    # ------------- CoAP, whole sessions through CoAPPairing: every session-level operation (and every pair of them) in the
+    # middle of a session that has exchanged requests and events, followed by replays of what was recorded and more traffic
+    pre = ["s0", "e", "g0", "e", "p1"]
+    cseqs = [pre + [a] + CS_PROBES for a in CS_SESSION_OPS]
+    cseqs += [pre + list(c) + CS_PROBES for c in itertools.product(CS_SESSION_OPS if ctx.thorough() else CS_PAIR_OPS, repeat=2)]
+    if ctx.thorough():
+        cseqs += [pre + list(c) + CS_PROBES for c in itertools.product(CS_PAIR_OPS, repeat=3)]
+    cseqs += [pre + [a, "g1", b, "e"] + CS_PROBES for a in ("O", "Q", "N", "X") for b in ("D1", "Z", "T", "W", "V", "c")]
+    cseqs += [pre + [a] + CS_RESPONSE_PROBES for a in CS_SESSION_OPS]
+    for _ in range(ctx.budget(400, 6000)):
+        cseqs.append(gen_coap_session(rng))
+    for k, evs in enumerate(cseqs):
+        case = {"stream": "coap-session", "events": evs, "seed": ctx.seed * 100003 + k}
+        rec = run_coap_session(loop, evs, seed=case["seed"])
+        ctx.evaluations += 1
+        ctx.nontrivial.add(("coap-session", tuple(evs)))
+        account_coap_session(ctx, rec)
+        for sig, text in oracle_coap_session(rec):
+            ctx.violation(sig, text, dict(case, signature=sig))
+        if k == len(cseqs) - 1:
+            ctx.sample(case)
     loop.close()
 
 
@@ -1271,11 +1923,15 @@ def replay(ctx, driver, c):
         if c["stream"] == "ip-session":
             v = oracle_ip_session(run_ip_session(loop, list(c["events"]), seed=c.get("seed", 0)))
             return v[0][1] if v else None
+        if c["stream"] == "coap-session":
+            v = oracle_coap_session(run_coap_session(loop, list(c["events"]), seed=c.get("seed", 0)))
+            v = [x for x in v if c.get("signature") in (None, x[0])]  # a history may also meet a finding on record: replay the violation it was filed for
+            return v[0][1] if v else None
         if c["stream"] == "ble-reads":
             v = oracle_ble_reads(run_ble_reads(loop, list(c["events"]), seed=c.get("seed", 0)))
             return v[0][1] if v else None
         if c["stream"] == "ble-sessions":
-            evs = [(e,) if e in ("Kr", "Kf", "Kp", "x", "a") else (e[0], int(e[1:])) for e in c["events"]]
+            evs = [(e,) if e in ("Kr", "Kf", "Kp", "x", "a", "X", "C") else (e[0], int(e[1:])) for e in c["events"]]
             v = analyse_sessions(run_ble_sessions(loop, evs, seed=c.get("seed", 0)))
             return v[0][1] if v else None
         evs = [(e[0], int(e[1:])) if len(e) > 1 else (e,) for e in c["events"]]
